@@ -27,10 +27,12 @@ def dispatch (op : String) (args : List String) (obs : String) : String × Strin
   match op with
   | "wh" => c01wh args obs
   | "rh" => c01rh args obs
+  | "rhs" => c01rhs args obs
   | "wf" => c01wf args obs
   | "rf" => c01rf args obs
   | "cipher" => c02cipher args obs
   | "crd" => c02crd args obs
+  | "crc" => c02crc args obs
   | "cwr" => c02cwr args obs
   | "cwrr" => c02cwrr args obs
   | "mf" => c02mf args obs
@@ -41,6 +43,7 @@ def dispatch (op : String) (args : List String) (obs : String) : String × Strin
   | "pred" => c03pred args obs
   | "spred" => c03spred args obs
   | "u8" => c07u8 args obs
+  | "u8r" => c07u8r args obs
   | "wr" => c06wr args obs
   | "wm" => c06wm args obs
   | "up" => c09up args obs
